@@ -89,6 +89,11 @@ def run(ctx):
         if got != want:
             ctx.report("C16-token-tables", key, "the value %s is printed as %r, which the reader tokenises as %s; expected %s" % (
                 label, txt, got, want), where_of(vf))
+    # whole values: printed, quoted, read back by the crate's own lexer and parser, compared as structures
+    ctx.rule("C16-read-back", "the printed text of a value (lists, dotted tails, vectors, nestings, and lists headed by the symbols the reader's "
+                              "abbreviations stand for, in every context), prefixed with ' and read by the crate's own reader, is (quote V) "
+                              "with V the same structure")
+    printtables.rule_readback(ctx, "C16-read-back")
     # characters: `#\` followed by the character itself
     m_ = printtables.Mk(fb)
     for ch in "a(1 ;\"'\\#|\t\u03bb":
